@@ -19,7 +19,7 @@ for d in sorted(glob.glob("/verif/seeded/*/")):
     for c, old in meta.get("checks_run", {}).items():
         if not old.get("violations"):
             continue
-        p = subprocess.run("VERIF_FROZEN=1 VERIF_REPO=%s ./check %s quick" % (wt, c), shell=True, cwd="/verif", stdout=subprocess.PIPE, stderr=subprocess.STDOUT)
+        p = subprocess.run("VERIF_FROZEN=1 VERIF_REPO=%s ./check %s quick" % (wt, c), shell=True, cwd=os.environ.get("VERIF_ROOT", "/verif"), stdout=subprocess.PIPE, stderr=subprocess.STDOUT)
         n = sum(1 for l in p.stdout.decode("utf-8", "replace").split("\n") if l.startswith("VIOLATION"))
         res.append("%s:%s" % (c, "caught" if n else "MISSED"))
         if not n:
